@@ -44,20 +44,20 @@ def _pop_array_accesses(lhs, **kwargs):
 
     possible_accesses = _array_indices_to_accesses(masked_indices, new_shape)
     for access in possible_accesses:
-        constants_map.pop((lhs.basename, access), None)
+        constants_map.pop((lhs.basename.lower(), access), None)
 
 
 def update_constants_map(lhs, value, constants_map):
-    constants_map[(lhs.basename, ())] = value
+    constants_map[(lhs.basename.lower(), ())] = value
 
 
 def invalidate_constants_map(lhs, constants_map):
     if isinstance(lhs, sym.Array):
-        for access in tuple(key for key in constants_map if key[0] == lhs.basename):
-            constants_map.pop((lhs.basename, access), None)
+        for key in tuple(key for key in constants_map if key[0] == lhs.basename.lower()):
+            constants_map.pop(key, None)
         return
 
-    constants_map.pop((lhs.basename, ()), None)
+    constants_map.pop((lhs.basename.lower(), ()), None)
 
 
 def _literal_has_type_of(literal, var):
@@ -101,7 +101,7 @@ class ConstantPropagationMapper(SimplifyMapper):
 
     def map_array(self, expr, *args, **kwargs):
         constants_map = kwargs.get('constants_map', {})
-        return constants_map.get((expr.basename, getattr(expr, 'dimensions', ())), expr)
+        return constants_map.get((expr.basename.lower(), getattr(expr, 'dimensions', ())), expr)
 
     def map_quotient(self, expr, *args, **kwargs):
         """ Always force-evaluate integer-division """
@@ -287,13 +287,13 @@ class ConstantPropagationTransformer(Transformer):
             symbol_map = declarations_map if symbol.type.parameter else saved_map
             if isinstance(symbol, sym.Array):
                 symbol_map.update({
-                    (symbol.basename, indices): index_initial_elements(indices, symbol.initial)
+                    (symbol.basename.lower(), indices): index_initial_elements(indices, symbol.initial)
                     for indices in _array_indices_to_accesses(
                         [sym.RangeIndex((None, None, None))] * len(symbol.shape), symbol.shape
                     )
                 })
             else:
-                symbol_map[(symbol.basename, ())] = symbol.initial
+                symbol_map[(symbol.basename.lower(), ())] = symbol.initial
 
         # An initialised variable is implicitly saved and holds its last value
         # when the routine is called again: the initial value is only known on
